@@ -1659,6 +1659,18 @@ val all_flags : modflags
 
 val clear_events : state -> state
 
+val i64MAX : z
+
+val pos_i64 : z -> bool
+
+val coins_param_ok : coin list -> bool
+
+val coin_param_ok : coin -> bool
+
+val share_ok : z -> bool
+
+val pchange_valid : pchange -> bool
+
 val step : state -> op -> outcome
 
 type run_result =
@@ -1807,7 +1819,7 @@ val status_ai : status -> bool
 
 val nodupb : ('a1, 'a1) relDecision -> 'a1 list -> bool
 
-val share_ok : z -> bool
+val share_ok0 : z -> bool
 
 val validate_deposit : (addr * (denom, z) gmap) -> bool
 
